@@ -406,6 +406,69 @@ static void do_lookup(void) {
 	uint64_t sig = 9; for (int i = 0; i < NU; i++) sig = vh_mix(sig, __builtin_popcount(srcs_with(&S.F, i))); vh_sig(sig);
 }
 
+/* ---- C04 additional observation paths: mtbl_source_write() and the real mtbl_merge tool with a merge DSO ---- */
+static bool check_merged_file(const uint8_t *bytes, size_t len, char *why, size_t wn) {
+	family *F = &S.F; ic_file f;
+	if (ic_decode(bytes, len, &f)) { snprintf(why, wn, "output does not decode: %s", f.err); return false; }
+	int ki = 0; bool ok = true;
+	for (size_t b = 0; b < f.nblocks && ok; b++) for (size_t i = 0; i < f.blocks[b].n && ok; i++) {
+		const ic_ent *e = &f.blocks[b].e[i];
+		while (ki < NU && srcs_with(F, ki) == 0) ki++;
+		if (ki >= NU) { snprintf(why, wn, "output holds an extra entry with key %s", vh_hex(e->key, e->klen)); ok = false; break; }
+		if (e->klen != UK[ki].n || memcmp(e->key, UK[ki].b, e->klen)) { snprintf(why, wn, "output entry has key %s, expected %s", vh_hex(e->key, e->klen), vh_hex(UK[ki].b, UK[ki].n)); ok = false; break; }
+		char w2[160];
+		if (!value_is_fold(F, ki, srcs_with(F, ki), e->val, e->vlen, w2, sizeof w2)) { snprintf(why, wn, "key %s: %s", vh_hex(e->key, e->klen), w2); ok = false; break; }
+		ki++;
+	}
+	if (ok) { while (ki < NU && srcs_with(F, ki) == 0) ki++; if (ki < NU) { snprintf(why, wn, "output lacks key %s", vh_hex(UK[ki].b, UK[ki].n)); ok = false; } }
+	ic_free(&f);
+	return ok;
+}
+static void do_srcwrite(void) {
+	S.F.merge = true; S.F.dupsort = 0; S.F.failkey = -1; S.F.failnth = 0; S.sp = SPECS[0];
+	vh_case_begin(render, &S); BS.nops = 0;
+	if (ms_open(&S)) { vh_violation("open", "%s", bfs_fail); vh_case_end(); return; }
+	mtbl_iter_destroy(&S.it);
+	int wfd = tbl_memfd(); struct mtbl_writer_options *wo = mtbl_writer_options_init(); mtbl_writer_options_set_compression(wo, MTBL_COMPRESSION_NONE); mtbl_writer_options_set_block_size(wo, 1024);
+	struct mtbl_writer *w = mtbl_writer_init_fd(wfd, wo); mtbl_writer_options_destroy(&wo);
+	mtbl_res r = mtbl_source_write(mtbl_merger_source(S.m), w);
+	mtbl_writer_destroy(&w);
+	size_t len; uint8_t *bytes = tbl_slurp(wfd, &len); close(wfd);
+	char why[300];
+	if (r != mtbl_res_success) vh_violation("source-write", "mtbl_source_write of a merger reported failure");
+	else if (!check_merged_file(bytes, len, why, sizeof why)) vh_violation("source-write", "file written by mtbl_source_write: %s", why);
+	free(bytes);
+	ms_close(&S);
+	VH_COUNT("states", 1); VH_COUNT("executions", 1); VH_COUNT("transitions", 1); VH_COUNT("source_write_runs", 1);
+	vh_case_end();
+}
+static void do_tool(void) {
+	const char *exe = getenv("VERIF_TOOL_MTBL_MERGE"), *dso = getenv("VERIF_DSO_FOLD_DSO"), *dir = getenv("VERIF_SCRATCH_DIR");
+	if (!exe || !dso || !dir) { printf("@error \"merger: mtbl_merge tool / DSO / scratch dir not provided\"\n"); return; }
+	if (S.F.k == 0) return;                      /* the tool needs at least one input */
+	S.F.merge = true; S.F.dupsort = 0; S.F.failkey = -1; S.F.failnth = 0; S.sp = SPECS[0];
+	vh_case_begin(render, &S); BS.nops = 0;
+	char in[MAXSRC][300], out[300]; char *argv[16]; int a = 0; static int serial;
+	static const char *comp[] = { "none", "zlib", "lz4", "zstd" }; const char *cm = comp[serial % 4];
+	argv[a++] = "mtbl_merge"; argv[a++] = "-b"; argv[a++] = "1024"; argv[a++] = "-c"; argv[a++] = (char *) cm;
+	if (serial % 3 == 1) { argv[a++] = "-t"; argv[a++] = "2"; }
+	for (int s = 0; s < S.F.k; s++) { snprintf(in[s], sizeof in[s], "%s/in%d.mtbl", dir, s); FILE *f = fopen(in[s], "wb"); fwrite(S.img[s], 1, S.imglen[s], f); fclose(f); argv[a++] = in[s]; }
+	snprintf(out, sizeof out, "%s/out.mtbl", dir); unlink(out); argv[a++] = out; argv[a] = NULL; serial++;
+	fflush(stdout);
+	pid_t pid = fork();
+	if (pid == 0) { setenv("MTBL_MERGE_DSO", dso, 1); setenv("MTBL_MERGE_FUNC_PREFIX", "vfold", 1); setenv("LC_ALL", "C", 1); int dn = open("/dev/null", O_WRONLY); dup2(dn, 1); dup2(dn, 2); execv(exe, argv); _exit(127); }
+	int st = 0; waitpid(pid, &st, 0);
+	if (!WIFEXITED(st) || WEXITSTATUS(st) != 0) vh_violation("mtbl_merge", "mtbl_merge ended with status 0x%x (compression %s)", st, cm);
+	else {
+		int fd = open(out, O_RDONLY); if (fd < 0) vh_violation("mtbl_merge", "mtbl_merge did not create its output file");
+		else { size_t len; uint8_t *bytes = tbl_slurp(fd, &len); close(fd); char why[300]; if (!check_merged_file(bytes, len, why, sizeof why)) vh_violation("mtbl_merge", "output of mtbl_merge (-c %s): %s", cm, why); free(bytes); }
+	}
+	for (int s = 0; s < S.F.k; s++) unlink(in[s]);
+	unlink(out);
+	VH_COUNT("states", 1); VH_COUNT("executions", 1); VH_COUNT("transitions", 1); VH_COUNT("tool_runs", 1);
+	vh_case_end();
+}
+
 int main(int argc, char **argv) {
 	vh_init(argc, argv);
 	BS = (bfs_sys) { .ctx = &S, .open = ms_open, .close = ms_close, .step = ms_step, .canon = ms_canon, .alphabet = ms_alphabet, .explain = ms_explain, .state_cap = 200000, .viol_key = "merger" };
@@ -418,6 +481,8 @@ int main(int argc, char **argv) {
 		int ops[BFS_MAXD + 2], n = 0;
 		while (*s && n < BFS_MAXD) { int v, o2; if (sscanf(s, "%d%n", &v, &o2) < 1) break; ops[n++] = v; s += o2; if (*s == '.') s++; }
 		family_images(&S);
+		if (!strcmp(vh_arg(0, ""), "tool")) { do_tool(); return vh_finish(); }
+		if (!strcmp(vh_arg(0, ""), "srcwrite")) { do_srcwrite(); return vh_finish(); }
 		vh_case_begin(render, &S);
 		fprintf(stderr, "replay: %s\n", ms_explain(&S, ops, n));
 		bfs_replay(&BS, ops, n, NULL);
@@ -429,6 +494,8 @@ int main(int argc, char **argv) {
 	else if (!strcmp(mode, "fail")) { BS.viol_key = "merge-failure"; for_each_family(vh_thorough ? 4 : 3, "rx", do_fail); }
 	else if (!strcmp(mode, "bfs")) { BS.viol_key = "seek-contract"; for_each_family(vh_thorough ? 3 : 2, vh_thorough ? "rumx" : "rmu", do_bfs); }
 	else if (!strcmp(mode, "tree")) { BS.viol_key = "seek-contract"; g_treedepth = vh_thorough ? 4 : 3; for_each_family(2, vh_thorough ? "xu" : "x", do_bfs); }
+	else if (!strcmp(mode, "srcwrite")) { BS.viol_key = "source-write"; for_each_family(3, "rmx", do_srcwrite); }
+	else if (!strcmp(mode, "tool")) { BS.viol_key = "mtbl_merge"; for_each_family(vh_thorough ? 3 : 2, "rm", do_tool); }
 	else if (!strcmp(mode, "lookup")) { BS.viol_key = "lookup"; for_each_family(vh_thorough ? 3 : 2, "rmx", do_lookup); }
 	if (vh_shard == 0) vh_sample("src0(r)={e a } src1(m)={a b } merge=1; iter(); ops: next seek(a) next seek(a) next next");
 	return vh_finish();
